@@ -462,6 +462,37 @@ Definition choose_writer (stem ext : string) (arg : option string) : res (writer
       else Err                                             (* RuntimeError: unknown extension *)
   end.
 
+(* the same on the path actually passed to save_results.  os.path.splitext(p)[1].lstrip("."):
+   the text after the last "." of the LAST path component, provided a character other than "."
+   precedes that dot inside the component; dots in directory names never count. *)
+Definition ext_step (st : bool * option string) (c : ascii) : bool * option string :=
+  if Ascii.eqb c "/"%char then (false, None)
+  else if Ascii.eqb c "."%char then (fst st, if fst st then Some EmptyString else snd st)
+  else (true, match snd st with Some e => Some (e ++ String c EmptyString)%string | None => None end).
+Fixpoint ext_scan (st : bool * option string) (s : string) : bool * option string :=
+  match s with EmptyString => st | String c r => ext_scan (ext_step st c) r end.
+Definition path_ext (p : string) : string :=
+  match snd (ext_scan (false, None) p) with Some e => e | None => EmptyString end.
+
+Definition choose_writer_p (filename : string) (arg : option string) : res (writer * string) :=
+  let ext := path_ext filename in
+  match (match arg with
+         | None => if String.eqb ext EmptyString then None else Some (ext, filename)
+         | Some e => if String.eqb ext EmptyString then Some (e, (filename ++ "." ++ e)%string)
+                     else Some (e, filename)
+         end) with
+  | None => Err
+  | Some (e, fname) =>
+      if String.eqb e "json" then Ok (WJson, fname)
+      else if String.eqb e "hdf5" || String.eqb e "h5" then Ok (WHdf5, fname)
+      else Err
+  end.
+Fixpoint has_dot (s : string) : bool :=
+  match s with EmptyString => false | String c r => Ascii.eqb c "."%char || has_dot r end.
+(* a file-name stem / an extension: non-empty, no "/" and no "." *)
+Definition plain (s : string) : bool :=
+  negb (String.eqb s EmptyString) && negb (has_slash s) && negb (has_dot s).
+
 (* live_points_to_dict on the posterior before the JSON writer *)
 Definition column (j : nat) (rows : list (list Z)) : list Z := map (fun r => nth j r 0) rows.
 Definition struct_to_dict (fields : list (string * akind)) (rows : list (list Z)) : tree :=
